@@ -753,23 +753,76 @@ func (l *liveServer) fresh(sp nodeSpec) ([nX]map[string][]byte, error) {
 
 // directGen: the five types generated by the real generators WITHOUT the XDS cache for a new proxy of this
 // identity, forced, from the given PushContext (nil = a from-scratch PushContext of the live environment).
-func (l *liveServer) directGen(sp nodeSpec, pc *model.PushContext) (out [nX]map[string][]byte, err error) {
-	s := l.s.Discovery
+// newProxy: the server-side proxy a NEW connection of this identity would get now (initProxyMetadata + initializeProxy).
+func (l *liveServer) newProxy(sp nodeSpec, pc *model.PushContext) (*model.Proxy, error) {
 	node := sp.node()
 	meta, err := model.ParseMetadata(node.Metadata)
 	if err != nil {
-		return out, err
+		return nil, err
 	}
 	proxy, err := model.ParseServiceNodeWithMetadata(node.Id, meta)
 	if err != nil {
-		return out, err
+		return nil, err
 	}
 	proxy.ConfigNamespace = model.GetProxyConfigNamespace(proxy)
 	proxy.XdsNode = node
 	proxy.LastPushContext = pc
-	xds.VerifComputeProxyState(s, proxy, nil) // what initializeProxy does
+	xds.VerifComputeProxyState(l.s.Discovery, proxy, nil) // what initializeProxy does
 	proxy.DiscoverIPMode()
 	proxy.WatchedResources = map[string]*model.WatchedResource{}
+	return proxy, nil
+}
+
+// identityDrift: how the connected proxy's registry-derived identity differs from what a new connection would get
+// (workload labels, locality, service targets); "" = none.
+func (l *liveServer) identityDrift(sp nodeSpec, p *model.Proxy) string {
+	np, err := l.newProxy(sp, l.s.Env().PushContext())
+	if err != nil {
+		return "error: " + err.Error()
+	}
+	var out []string
+	if fmt.Sprint(p.Labels) != fmt.Sprint(np.Labels) {
+		out = append(out, fmt.Sprintf("labels connected=%v new=%v", p.Labels, np.Labels))
+	}
+	lc := func(q *model.Proxy) string {
+		if q.Locality == nil {
+			return ""
+		}
+		return q.Locality.Region + "/" + q.Locality.Zone + "/" + q.Locality.SubZone
+	}
+	if lc(p) != lc(np) {
+		out = append(out, fmt.Sprintf("locality connected=%q new=%q", lc(p), lc(np)))
+	}
+	if l.staleTargets(p) {
+		out = append(out, "service targets differ")
+	}
+	return strings.Join(out, "; ")
+}
+
+func (l *liveServer) directGen(sp nodeSpec, pc *model.PushContext) (out [nX]map[string][]byte, err error) {
+	return l.directGenWith(sp, pc, false)
+}
+
+// directGenWith: useCache = through the server's own generators (XDS cache), otherwise cache-less generators.
+func (l *liveServer) directGenWith(sp nodeSpec, pc *model.PushContext, useCache bool) (out [nX]map[string][]byte, err error) {
+	return l.directGenAs(sp, pc, useCache, nil)
+}
+
+// directGenAs: like directGenWith; identity != nil = generate for a new proxy that carries the registry-derived identity
+// (workload labels, locality, service targets) of the given connected proxy instead of the current one.
+func (l *liveServer) directGenAs(sp nodeSpec, pc *model.PushContext, useCache bool, identity *model.Proxy) (out [nX]map[string][]byte, err error) {
+	s := l.s.Discovery
+	proxy, err := l.newProxy(sp, pc)
+	if err != nil {
+		return out, err
+	}
+	if identity != nil {
+		proxy.Labels = identity.Labels
+		proxy.Locality = identity.Locality
+		proxy.ServiceTargets = identity.ServiceTargets
+		proxy.SetSidecarScope(pc)
+		proxy.SetGatewaysForProxy(pc)
+	}
 	cg := core2.NewConfigGenerator(&model.DisabledCache{})
 	gens := [nX]model.XdsResourceGenerator{
 		xCDS: &xds.CdsGenerator{ConfigGenerator: cg},
@@ -777,6 +830,11 @@ func (l *liveServer) directGen(sp nodeSpec, pc *model.PushContext) (out [nX]map[
 		xLDS: &xds.LdsGenerator{ConfigGenerator: cg},
 		xRDS: &xds.RdsGenerator{ConfigGenerator: cg},
 		xNDS: &xds.NdsGenerator{ConfigGenerator: cg},
+	}
+	if useCache {
+		for x := range gens {
+			gens[x] = s.Generators[xURL[x]]
+		}
 	}
 	tmp := &simClient{spec: sp}
 	for i := range tmp.res {
@@ -857,6 +915,110 @@ func sameRes(a, b map[string][]byte, onlyCommon bool) (bool, string) {
 		diffs = append(diffs[:6], fmt.Sprintf("... %d more", len(diffs)-6))
 	}
 	return false, strings.Join(diffs, " ")
+}
+
+// diffNames: names whose presence or bytes differ
+func diffNames(a, b map[string][]byte) []string {
+	var out []string
+	for n, va := range a {
+		if vb, ok := b[n]; !ok || string(va) != string(vb) {
+			out = append(out, n)
+		}
+	}
+	for n := range b {
+		if _, ok := a[n]; !ok {
+			out = append(out, n)
+		}
+	}
+	sort.Strings(out)
+	return out
+}
+
+const findingStaleTargets = "C01-stale-proxy-identity-from-serviceentry-endpoints"
+
+// staleTargets: the connected proxy's ServiceTargets (computed at connect / on ServiceEntry-kind keys of its namespace)
+// are not what the registry returns for it now.
+func (l *liveServer) staleTargets(p *model.Proxy) bool {
+	key := func(ts []model.ServiceTarget) []string {
+		var out []string
+		for _, t := range ts {
+			if t.Service != nil {
+				out = append(out, fmt.Sprintf("%s/%d/%d", t.Service.Hostname, t.Port.Port, t.Port.TargetPort))
+			}
+		}
+		sort.Strings(out)
+		return out
+	}
+	return !slices.Equal(key(p.ServiceTargets), key(l.s.Env().ServiceDiscovery.GetProxyServiceTargets(p)))
+}
+
+const findingCacheView = "C01-eds-cache-key-ignores-scoped-service-ports"
+
+// classify attributes a failing case to a listed finding by its SPECIFIC condition, or returns "".
+//
+//	badNames: every resource name involved in a failing bit; ctxBad: partial PushContext != from-scratch one (never attributable)
+func (l *liveServer) classify(cl *simClient, p *model.Proxy, pcLive *model.PushContext, dLive, dCache [nX]map[string][]byte, badNames [nX][]string, ctxBad bool) string {
+	if ctxBad {
+		return ""
+	}
+	// (1) EDS cache poisoning: the cache serves an EMPTY ClusterLoadAssignment where cache-less generation has endpoints, and
+	// nothing else is wrong: every failing name is one of those clusters.
+	poisoned := map[string]bool{}
+	cacheClean := true
+	for x := 0; x < nX; x++ {
+		for _, n := range diffNames(dCache[x], dLive[x]) {
+			cacheClean = false
+			if x != xEDS {
+				return ""
+			}
+			cla := &endpoint.ClusterLoadAssignment{}
+			if proto.Unmarshal(dCache[x][n], cla) != nil || len(cla.Endpoints) != 0 || dLive[x][n] == nil {
+				return ""
+			}
+			poisoned[n] = true
+		}
+	}
+	if !cacheClean {
+		for x := 0; x < nX; x++ {
+			for _, n := range badNames[x] {
+				if x != xEDS || !poisoned[n] {
+					return ""
+				}
+			}
+		}
+		return findingCacheView
+	}
+	// (2) stale registry-derived identity: the connected proxy's workload labels / locality / service targets are not what a
+	// new connection gets, and the client holds EXACTLY what the real generators produce for that stale identity.
+	if l.identityDrift(cl.spec, p) == "" {
+		return ""
+	}
+	dStale, err := l.directGenAs(cl.spec, pcLive, false, p)
+	if err != nil {
+		return ""
+	}
+	for x := 0; x < nX; x++ {
+		if x == xNDS && !cl.spec.NDS {
+			continue
+		}
+		if ok, _ := sameRes(cl.res[x], dStale[x], false); !ok {
+			return ""
+		}
+	}
+	return findingStaleTargets
+}
+
+// commonDiff: like diffNames, optionally restricted to names present on both sides
+func commonDiff(a, b map[string][]byte, onlyCommon bool) []string {
+	var out []string
+	for _, n := range diffNames(a, b) {
+		_, ina := a[n]
+		_, inb := b[n]
+		if !onlyCommon || (ina && inb) {
+			out = append(out, n)
+		}
+	}
+	return out
 }
 
 func newMsg(x int) proto.Message {
@@ -1017,7 +1179,7 @@ type hStats struct {
 }
 
 func (st *hStats) suspect(format string, args ...any) {
-	if len(st.suspects) < 40 {
+	if len(st.suspects) < 400 {
 		st.suspects = append(st.suspects, fmt.Sprintf(format, args...))
 	}
 }
@@ -1087,6 +1249,11 @@ func runSession(c *vlib.Collector, base int, r *vlib.Rand, sc sessionCfg, st *hS
 	defer live.close()
 	if err := live.connectAll(sc.Specs); err != nil {
 		return err
+	}
+	var dbg *logCache
+	if os.Getenv("VERIF_C01H_DEBUG") != "" {
+		dbg = installLogCache(live.s.Discovery)
+		installLogEds(live.s.Discovery, dbg)
 	}
 	id := base
 	next := func() int {
@@ -1172,6 +1339,11 @@ func runSession(c *vlib.Collector, base int, r *vlib.Rand, sc sessionCfg, st *hS
 		for _, cl := range live.clients {
 			cl.resetRound()
 		}
+		if dbg != nil {
+			dbg.mu.Lock()
+			dbg.tag = fmt.Sprintf("step%d", step)
+			dbg.mu.Unlock()
+		}
 		var merged *model.PushRequest
 		for gi, g := range groups {
 			merged = live.push(g)
@@ -1195,6 +1367,10 @@ func runSession(c *vlib.Collector, base int, r *vlib.Rand, sc sessionCfg, st *hS
 				return err
 			}
 			dFull, err := live.directGen(cl.spec, pcFull)
+			if err != nil {
+				return err
+			}
+			dCache, err := live.directGenWith(cl.spec, pcLive, true)
 			if err != nil {
 				return err
 			}
@@ -1222,6 +1398,8 @@ func runSession(c *vlib.Collector, base int, r *vlib.Rand, sc sessionCfg, st *hS
 			}
 			var xos []string
 			bad, trivial := false, true
+			var badNames [nX][]string
+			ctxBad := false
 			per := map[string]any{}
 			for x := 0; x < nX; x++ {
 				if x == xNDS && !cl.spec.NDS {
@@ -1245,6 +1423,7 @@ func runSession(c *vlib.Collector, base int, r *vlib.Rand, sc sessionCfg, st *hS
 				heldOK, d2 := sameRes(cl.res[x], after[x], false)
 				ctxEq, d3 := sameRes(dLive[x], dFull[x], false)
 				heldFull, d4 := sameRes(cl.res[x], dFull[x], false)
+				cacheOK, d5 := sameRes(dCache[x], dLive[x], false)
 				sent := cl.gotType[x]
 				decided := false
 				if single {
@@ -1278,8 +1457,12 @@ func runSession(c *vlib.Collector, base int, r *vlib.Rand, sc sessionCfg, st *hS
 					o["HELD_vs_full_ctx"] = d4
 					o["held_vs_full_detail"] = firstDiff(x, cl.res[x], dFull[x])
 				}
+				if !cacheOK {
+					o["XDS_CACHE_vs_no_cache"] = d5
+					o["cache_vs_no_cache_detail"] = firstDiff(x, dCache[x], dLive[x])
+				}
 				per[xName[x]] = o
-				okx := (sent || equal) && narrow && heldOK && ctxEq && heldFull
+				okx := (sent || equal) && narrow && heldOK && ctxEq && heldFull && cacheOK
 				if single {
 					okx = okx && (decided || equal)
 					c.Hyp("H_dep", 1)
@@ -1310,15 +1493,76 @@ func runSession(c *vlib.Collector, base int, r *vlib.Rand, sc sessionCfg, st *hS
 				c.Hyp("H_field", 1)
 				if !okx {
 					bad = true
-					st.suspect("%s id=%d %s %s step=%d %v decided=%v sent=%v equal=%v narrow=%v held=%v ctx=%v heldfull=%v | %v | %v | %v | %v", map[bool]string{true: "HStep", false: "HBatch"}[single],
-						cid, xName[x], cl.spec.Name, step, opsShort(ops), decided, sent, equal, narrow, heldOK, ctxEq, heldFull,
-						o["before_vs_after_detail"], o["not_resent_detail"], o["held_vs_forced_detail"], o["partial_vs_full_detail"])
+					if !ctxEq {
+						ctxBad = true
+					}
+					if !(sent || equal) || (single && !(decided || equal)) {
+						badNames[x] = append(badNames[x], commonDiff(prev[ci][x], after[x], onlyCommon)...)
+					}
+					if !narrow {
+						badNames[x] = append(badNames[x], commonDiff(notResentB, notResentA, true)...)
+					}
+					if !heldOK {
+						badNames[x] = append(badNames[x], diffNames(cl.res[x], after[x])...)
+					}
+					if !heldFull {
+						badNames[x] = append(badNames[x], diffNames(cl.res[x], dFull[x])...)
+					}
+					st.suspect("%s id=%d %s %s step=%d %v decided=%v sent=%v equal=%v narrow=%v held=%v ctx=%v heldfull=%v cache=%v | %v | %v | %v | %v | %v", map[bool]string{true: "HStep", false: "HBatch"}[single],
+						cid, xName[x], cl.spec.Name, step, opsShort(ops), decided, sent, equal, narrow, heldOK, ctxEq, heldFull, cacheOK,
+						o["before_vs_after_detail"], o["not_resent_detail"], o["held_vs_forced_detail"], o["partial_vs_full_detail"], o["cache_vs_no_cache_detail"])
 				}
-				xos = append(xos, vlib.App("XO", xName[x], vlib.B(decided), vlib.B(sent), vlib.B(equal), vlib.B(narrow), vlib.B(heldOK), vlib.B(ctxEq), vlib.B(heldFull)))
+				xos = append(xos, vlib.App("XO", xName[x], vlib.B(decided), vlib.B(sent), vlib.B(equal), vlib.B(narrow), vlib.B(heldOK), vlib.B(ctxEq), vlib.B(heldFull), vlib.B(cacheOK)))
 			}
 			sample["per_type"] = per
 			if bad {
 				sample["history"] = append([]string(nil), history...)
+				sample["proxy_identity_drift"] = live.identityDrift(cl.spec, p)
+				if dbg != nil {
+					dbg.mu.Lock()
+					for _, l := range dbg.log {
+						if strings.Contains(l, os.Getenv("VERIF_C01H_DEBUG")) { // e.g. VERIF_C01H_DEBUG=s0.ns1.example
+							st.suspect("  cachelog %s", l)
+						}
+					}
+					dbg.log = nil
+					dbg.mu.Unlock()
+				}
+				if os.Getenv("VERIF_C01H_DEBUG") != "" {
+					if np, err := live.newProxy(cl.spec, pcLive); err == nil {
+						desc := func(q *model.Proxy) string {
+							sc := q.SidecarScope
+							out := fmt.Sprintf("scope=%s/%s ver=%s", sc.Namespace, sc.Name, sc.Version)
+							for h, svc := range sc.ServicesByHostname() {
+								var ps []int
+								for _, pt := range svc.Ports {
+									ps = append(ps, pt.Port)
+								}
+								sort.Ints(ps)
+								out += fmt.Sprintf(" %s@%s%v", h, svc.Attributes.Namespace, ps)
+							}
+							return out
+						}
+						st.suspect("  debug scope connected: %s", desc(p))
+						st.suspect("  debug scope new:       %s", desc(np))
+					}
+					for _, sp := range sc.Specs {
+						a, _ := live.directGenWith(sp, pcLive, true)
+						b, _ := live.directGenWith(sp, pcLive, false)
+						for _, n := range diffNames(a[xEDS], b[xEDS]) {
+							ma, mb := &endpoint.ClusterLoadAssignment{}, &endpoint.ClusterLoadAssignment{}
+							_ = proto.Unmarshal(a[xEDS][n], ma)
+							_ = proto.Unmarshal(b[xEDS][n], mb)
+							st.suspect("  debug %s %s\n    cache:   %s\n    nocache: %s", sp.Name, n, prototext.MarshalOptions{}.Format(ma), prototext.MarshalOptions{}.Format(mb))
+						}
+					}
+				}
+				st.suspect("  diag id=%d identity[%v]", cid, sample["proxy_identity_drift"])
+				// Narrow tags of listed findings, by their specific condition (see classify).
+				if f := live.classify(cl, p, pcLive, dLive, dCache, badNames, ctxBad); f != "" {
+					c.FindingOf[cid] = f
+					sample["known_finding"] = f
+				}
 			}
 			var term string
 			if single {
@@ -1354,6 +1598,7 @@ func runSession(c *vlib.Collector, base int, r *vlib.Rand, sc sessionCfg, st *hS
 		}
 		sample := map[string]any{"kind": "converge", "proxy": cl.spec.Name, "changes": nchanges, "mode": sc.Mode}
 		var cvs []string
+		var cvNames [nX][]string
 		bad := false
 		for x := 0; x < nX; x++ {
 			if x == xNDS && !cl.spec.NDS {
@@ -1369,6 +1614,12 @@ func runSession(c *vlib.Collector, base int, r *vlib.Rand, sc sessionCfg, st *hS
 				sample[xName[x]+":NEW_CLIENT_vs_fresh_control_plane"] = d2
 				sample[xName[x]+":new_vs_fresh_detail"] = firstDiff(x, again[x], want[x])
 			}
+			if !eq {
+				cvNames[x] = diffNames(cl.res[x], want[x])
+			}
+			if !eq2 {
+				cvNames[x] = append(cvNames[x], diffNames(again[x], want[x])...)
+			}
 			if !eq || !eq2 {
 				bad = true
 				st.suspect("Converge id=%d %s %s mode=%s: held-vs-fresh[%s | %v] new-vs-fresh[%s | %v]", cid, xName[x], cl.spec.Name, sc.Mode,
@@ -1379,6 +1630,17 @@ func runSession(c *vlib.Collector, base int, r *vlib.Rand, sc sessionCfg, st *hS
 		}
 		if bad {
 			sample["history"] = history
+			if p := live.proxyOf(cl); p != nil {
+				pcl := live.s.Env().PushContext()
+				dl, e1 := live.directGen(cl.spec, pcl)
+				dc, e2 := live.directGenWith(cl.spec, pcl, true)
+				if e1 == nil && e2 == nil {
+					if f := live.classify(cl, p, pcl, dl, dc, cvNames, false); f != "" {
+						c.FindingOf[cid] = f
+						sample["known_finding"] = f
+					}
+				}
+			}
 		}
 		c.Add(vlib.Case{ID: cid, Term: vlib.App("Converge", vlib.NI(cid), ntNames[cl.spec.Type], vlib.NI(nchanges), vlib.List(cvs)),
 			Tags: []string{"converge", "converge:nt=" + string(cl.spec.Type), "converge:mode=" + sc.Mode}, Sample: sample})
@@ -1451,6 +1713,11 @@ func genH(t *testing.T, c *vlib.Collector, id *int) {
 	// the scripted reproducer of known finding C01-eds-prev-scope-lost-across-pushes
 	sessions = append(sessions, sessionCfg{Mode: "conv", Steps: len(prevScopeScript), Specs: nodeSpecs, World: prevScopeWorld,
 		Script: prevScopeScript, SplitOp: true, Finding: "C01-eds-prev-scope-lost-across-pushes"})
+	// the scripted reproducer of known finding C01-stale-service-targets-on-endpoint-only-change (its cases are tagged by the
+	// same narrow condition as in random sessions, not wholesale)
+	sessions = append(sessions, sessionCfg{Mode: "h", Steps: len(staleTargetsScript), Specs: nodeSpecs, World: staleTargetsWorld, Script: staleTargetsScript})
+	// the scripted reproducer of known finding C01-eds-cache-key-ignores-scoped-service-ports (tagged by classify as well)
+	sessions = append(sessions, sessionCfg{Mode: "h", Steps: len(cacheViewScript), Specs: nodeSpecs, World: cacheViewWorld, Script: cacheViewScript})
 	defaultBodySize := istio_route.DefaultMaxDirectResponseBodySizeBytes.GetValue()
 	defer func() {
 		c.Extra["shared_default_after_scripted_envoyfilter"] = istio_route.DefaultMaxDirectResponseBodySizeBytes.GetValue()
